@@ -278,30 +278,11 @@ def rule_boundary(run, F, cfg):
     c = dominating_conditions(g, tb)
     run.ob("C01.4.token-boundary", "no-tokens-from-complete-regex", has_cond(c, r"::is_complete_regex\(arg:self\)$", 0),
            "patterns of /regex/ rules are not tokenised", config=cfg)
-    # tokenizer: tokens adjacent to '*' are dropped
+    # tokenizer: when is a token emitted? Two decision regions (inside the loop at the end of a token; after the loop),
+    # each a short-circuit chain: walked edge by edge and compared with the specification on all valuations
     t = F.fn("utils::fast_tokenizer_no_regex")
     run.touched(t)
-    pushes = t.calls(r"^std::vec::Vec::push$")
-    ok = len(pushes) == 2
-    for b, tm in pushes:
-        c = dominating_conditions(t, b)
-        star_prev = any(("preceding_ch" in e or "Some{0: '*'}" in e or "'*'" in e) for e in c)
-        ok = ok and star_prev
-    star_next = any(re.search(r"\(.* Ne '\*'\)|\(.* Eq '\*'\)", e) or "'*'" in e for b, tm in pushes[:1] for e in dominating_conditions(t, b))
-    run.ob("C01.4.token-boundary", "tokens-next-to-wildcard-dropped", ok and star_next,
-           "fast_tokenizer_no_regex pushes a token only after comparing the following and the preceding character "
-           "with '*' (a token adjacent to a wildcard is a fragment)", site=t.loc(0), config=cfg)
-    # skip_first_token must guard EVERY push: the token that starts at offset 0 may also be the last one
-    n_p = 0
-    for b, tm in pushes:
-        n_p += 1
-        from analysis.guards import guarded_by_disjunction
-        guarded = guarded_by_disjunction(t, b, r"\(.* Ne 0\)$", 1, r"^arg:skip_first_token$", 0)
-        run.ob("C01.4.token-boundary", f"skip_first-guards-push#{n_p}", guarded,
-               "fast_tokenizer_no_regex: every token push is guarded by `start != 0 || !skip_first_token` — also the "
-               "final push, because a pattern's first token can be its last (`gif|`): the matcher only pins the right "
-               "end, so `gif` may be the tail of a longer URL token (`.../bigif`) and must not become the bucket key",
-               site=t.loc(b), config=cfg)
+    rule_token_emission(run, F, cfg, t)
     mx = [b for b, i, s in t.statements() if s["k"] == "assign" and s["rv"]["k"] == "binop" and s["rv"]["op"] in ("Ge", "Gt", "Lt", "Le")
           and "TOKENS_MAX" in t.expr_rvalue(s["rv"], 2)]
     run.ob("C01.4.token-boundary", "token-limit", bool(mx), "the tokenizer stops at TOKENS_MAX tokens (the property's < 127 token premise)", config=cfg)
@@ -349,6 +330,104 @@ def rule_entry_points(run, F, cfg):
     run.ob("C01.9.entry-points", "structural-id-used-for-badfilter-only", set(users) <= {"blocker::Blocker::new"} and bool(users),
            f"NetworkFilter::get_id / get_id_without_badfilter are called by Blocker::new only (callers: {users}); as a notion of "
            f"rule identity anywhere else it merges rules that differ in their tag", config=cfg)
+
+
+def rule_token_emission(run, F, cfg, t):
+    """fast_tokenizer_no_regex(pattern, is_allowed_code, skip_first_token, skip_last_token, wildcards, buffer):
+      end of a token inside the loop:  emit iff (start != 0 || !skip_first) && length > 1 && !(wildcards && (next == '*' || prev == '*'))
+      token still open after the loop: emit iff !skip_last && inside && (start != 0 || !skip_first) && length > 1 && !(wildcards && prev == '*')
+    `skip_first` guards EVERY emission (a pattern's first token can be its last: `gif|`), and the `*` tests apply only to
+    filter patterns (`wildcards`): in a request URL a `*` is an ordinary character and its neighbours are whole tokens."""
+    import itertools
+    from analysis.guards import walk_decisions, dominating_conditions as _dc
+    pn = {k: t.varnames.get(k) for k in (3, 4, 5)}            # skip_first_token, skip_last_token, wildcards by position
+    ok_sig = t.argc == 6 and all(pn.values())
+    pushes = [b for b, tm in t.calls(r"^std::vec::Vec::push$")]
+    nxt = [b for b, tm in t.calls(r"CharIndices<'a> as std::iter::Iterator>::next$")]
+    ok_shape = ok_sig and len(pushes) == 2 and len(nxt) == 1
+    if not ok_shape:
+        run.ob("C01.4.token-boundary", "emission:shape", False,
+               f"fast_tokenizer_no_regex has six parameters, one char_indices loop and two token pushes (argc {t.argc}, pushes {len(pushes)})",
+               status="UNDISCHARGED", site=t.loc(0), config=cfg)
+        return
+    sw = t.blocks[t.blocks[nxt[0]]["t"]["t"]]["t"]
+    loop_exit = [tg for v, tg in sw["targets"] if v == 0][0]
+    in_loop = [b for b in pushes if t.dominates(t.blocks[nxt[0]]["t"]["t"], b) and b not in t.reachable_from(loop_exit)]
+    final = [b for b in pushes if b in t.reachable_from(loop_exit)]
+    # start of the in-loop region: the block where the token state is closed (a bool local set to false under
+    # `!allowed && inside`); its end: the next update of the previous-character variable
+    closes = [b for b, i, st in t.statements() if st["k"] == "assign" and not st["pl"]["p"] and t.vexpr_rvalue(st["rv"]) == "false"
+              and st["pl"]["l"] in t.varnames and st["pl"]["l"] > t.argc
+              and any("Fn::call" in k and v == 0 for k, v in _dc(t, b, render=t.vexpr_operand).items())]
+    prevs = sorted({b for b, i, st in t.statements() if st["k"] == "assign" and not st["pl"]["p"]
+                    and st["pl"]["l"] in t.varnames and st["pl"]["l"] > t.argc
+                    and t.vexpr_rvalue(st["rv"]).startswith("std::option::Option::Some{0: ") and closes and b in t.reachable_from(closes[0]) and t.dominates(closes[0], b)})
+    if len(in_loop) != 1 or len(final) != 1 or len(closes) != 1 or len(prevs) != 1:
+        run.ob("C01.4.token-boundary", "emission:shape", False,
+               f"decision regions of the tokenizer not found (in-loop pushes {in_loop}, final {final}, close {closes}, prev update {prevs})",
+               status="UNDISCHARGED", site=t.loc(0), config=cfg)
+        return
+
+    def atom(e):
+        e = e.replace("$" + pn[3], "$SF").replace("$" + pn[4], "$SL").replace("$" + pn[5], "$W")
+        table = [(r"^\(\$\w+ Ne 0\)$", "S0", 1), (r"^\(\$\w+ Eq 0\)$", "S0", 0), (r"^\$SF$", "SF", 1), (r"^\$SL$", "SL", 1), (r"^\$W$", "W", 1),
+                 (r"^\(\((\$\w+|core::str::len\(\$\w+\)) SubWithOverflow \$\w+\)\.0 Gt 1\)$", "LEN", 1),
+                 (r"^\(\$\w+ Eq '\*'\)$", "CS", 1), (r"^\(\$\w+ Ne '\*'\)$", "CS", 0),
+                 (r"^<std::option::Option<T> as std::cmp::PartialEq>::eq\(\$\w+, std::option::Option::Some\{0: '\*'\}\)$", "PS", 1),
+                 (r"^std::cmp::PartialEq::eq\(\$\w+, std::option::Option::Some\{0: '\*'\}\)$", "PS", 1),
+                 (r"^<std::option::Option<T> as std::cmp::PartialEq>::ne\(\$\w+, std::option::Option::Some\{0: '\*'\}\)$", "PS", 0),
+                 (r"^std::cmp::PartialEq::ne\(\$\w+, std::option::Option::Some\{0: '\*'\}\)$", "PS", 0),
+                 (r"^\$\w+$", "IN", 1)]
+        for rx, nme, pol in table:
+            if re.match(rx, e):
+                return nme, pol
+        return None, None
+
+    def table_of(rows):
+        out, unknown = [], set()
+        for conds, label in rows:
+            a = {}
+            for e, v in conds.items():
+                nme, pol = atom(e)
+                if nme is None or v not in (0, 1):
+                    unknown.add(f"{e[:80]}={v}")
+                else:
+                    a[nme] = v if pol == 1 else 1 - v
+            out.append((a, label))
+        return out, unknown
+
+    specs = {
+        "in-loop": (walk_decisions(t, closes[0], {in_loop[0]: "emit", prevs[0]: "skip"}, render=t.vexpr_operand),
+                    ["S0", "SF", "LEN", "W", "CS", "PS"],
+                    lambda v: (v["S0"] or not v["SF"]) and v["LEN"] and not (v["W"] and (v["CS"] or v["PS"]))),
+        "final": (walk_decisions(t, loop_exit, {**{r: "skip" for r in t.exits()}, final[0]: "emit"}, render=t.vexpr_operand),
+                  ["SL", "IN", "S0", "SF", "LEN", "W", "PS"],
+                  lambda v: (not v["SL"]) and v["IN"] and (v["S0"] or not v["SF"]) and v["LEN"] and not (v["W"] and v["PS"])),
+    }
+    for name, (rows, names, spec) in specs.items():
+        tab, unknown = table_of(rows)
+        modelled = not unknown and all(l in ("emit", "skip") for _, l in tab) and len(tab) >= 5
+        bad = []
+        if modelled:
+            for bits in itertools.product((0, 1), repeat=len(names)):
+                v = dict(zip(names, bits))
+                got = {l for a, l in tab if all(v.get(k) == x for k, x in a.items())}
+                want = "emit" if spec(v) else "skip"
+                if got != {want}:
+                    bad.append(({k: x for k, x in v.items() if x}, sorted(got), want))
+        run.ob("C01.4.token-boundary", f"emission-table:{name}", modelled and not bad,
+               f"token emission ({name}) equals its specification on all {2 ** len(names)} valuations of {names} "
+               f"({len(tab)} decision paths; unmodelled: {sorted(unknown)[:2]}; first difference: {bad[:1]})",
+               status=None if modelled else "UNDISCHARGED", site=t.loc(closes[0] if name == 'in-loop' else loop_exit), config=cfg)
+    # which entry point tokenizes what: requests without wildcard semantics, rule text with
+    want_flag = {"utils::tokenize_pooled": "false", "utils::tokenize": "true", "utils::tokenize_filter": "true"}
+    got_flag = {}
+    for g, b, tm in F.callers_of(r"^utils::fast_tokenizer_no_regex$"):
+        got_flag[g.name] = g.expr_operand(tm["args"][4]) if len(tm["args"]) > 4 else "?"
+    req = [g.name for g, b, tm in F.callers_of(r"^utils::tokenize_pooled$")]
+    run.ob("C01.4.token-boundary", "wildcard-flag-by-entry-point", got_flag == want_flag and any(n.startswith("request::") for n in req),
+           f"tokenize_pooled (request URLs: called from {req}) passes wildcards = false, tokenize / tokenize_filter (rule text) pass "
+           f"true ({got_flag})", site=t.loc(0), config=cfg)
 
 
 def rule_token_cap_unbounded(run, F, cfg):
@@ -533,20 +612,15 @@ def rule_tokenizer_table(run, F, cfg):
         },
     }
     from collections import Counter
-    got = {"pushes": sorted(pushes, key=repr), "updates": dict(Counter(updates))}
-    # `pushes` order is by repr, which depends on names: compare as a set instead
-    got["pushes"] = frozenset(got["pushes"])
-    want["pushes"] = frozenset(want["pushes"])
+    got = {"updates": dict(Counter(updates))}
+    want = {"updates": want["updates"]}
     ren = renaming(got, want, fixed=())
     run.ob("C01.4.token-boundary", "tokenizer-table", ren is not None,
-           "fast_tokenizer_no_regex (modulo the names of its variables): a token is emitted (a) inside the loop only at a "
-           "non-token character, while inside a token, when that character is not `*` and the character before the "
-           "token was not `*`; (b) after the loop only when !skip_last_token, inside a token, and the character before "
-           "it was not `*`. State: a token starts (inside = true, start = i) at a token character while outside one and "
+           "fast_tokenizer_no_regex (modulo the names of its variables; emission: see emission-table). State: a token starts (inside = true, start = i) at a token character while outside one and "
            "ends at a non-token character while inside one; the previous character is None at first and is set to the "
            "current character at EVERY non-token character. No other update of these variables.",
            site=t.loc(0), config=cfg,
-           detail=f"extracted pushes: {sorted(got['pushes'], key=repr)}; updates: {sorted(got['updates'], key=repr)}")
+           detail=f"updates: {sorted(got['updates'], key=repr)}")
 
 
 def rule_token_sources(run, F, cfg):
